@@ -122,9 +122,10 @@ def to_violations(prop, agg, factory, budget, accept_tags=None):
     """Turn tagged oracle messages into Violation objects for `prop`; other tags are returned as notes."""
     vs, notes = [], []
     for cfg, msgs, choices in agg["violations"]:
-        mine = [m for t, m in msgs if t == prop or (accept_tags and t in accept_tags)]
         other = [(t, m) for t, m in msgs if not (t == prop or (accept_tags and t in accept_tags))]
-        if mine:
+        # one Violation per oracle tag of this execution (tags are separate classes of findings)
+        for tag in dict.fromkeys(t for t, _ in msgs if t == prop or (accept_tags and t in accept_tags)):
+            mine = [m for t, m in msgs if t == tag]
             key = json.dumps(cfg, sort_keys=True, default=repr) + " :: " + mine[0]
             vs.append(common.Violation(prop, key, "; ".join(mine[:3]), {
                 "engine": "E1", "factory": factory, "cfg": cfg, "choices": choices, "budget": budget,
